@@ -134,7 +134,12 @@ fn judge_input_inner(ctx: &mut Ctx, class: &str, bytes: &[u8], opts: JudgeOpts) 
         ctx.count("deadline-skips");
         return Judged { outs: Vec::new() };
     }
-    ctx.trace_case(|| json!({"kind": "input", "class": class, "hex": hex(bytes)}));
+    // (trace mode only) whether RefDecode is decisive for this one-item input under some key type: an abort or a
+    // hang of the library while this case is open is then "no verdict" for C02 as well as a C03 event
+    ctx.trace_case(|| {
+        let decisive = dec::kts().iter().any(|kt| matches!(ref_decode(bytes, *kt), RefOut::Accept(_) | RefOut::Reject(_)));
+        json!({"kind": "input", "class": class, "hex": hex(bytes), "c02_decisive": decisive})
+    });
     let kts = dec::kts();
     let mut outs: Vec<(KT, RefOut, DecOut)> = Vec::with_capacity(kts.len());
     for &kt in &kts {
